@@ -24,8 +24,8 @@ TIERS = {
     "C14": {"quick": (24000, 1), "thorough": (600000, 1)},
     "C11": {"quick": (24000, 1), "thorough": (800000, 1)},
     "C20": {"quick": (6000, 2), "thorough": (120000, 3)},
-    "C07": {"quick": (6000, 2), "thorough": (150000, 3)},
-    "C06": {"quick": (6000, 2), "thorough": (150000, 3)},
+    "C07": {"quick": (4000, 2), "thorough": (150000, 3)},
+    "C06": {"quick": (4000, 2), "thorough": (150000, 3)},
     "C03": {"quick": (6000, 2), "thorough": (120000, 3)},
 }
 
@@ -179,9 +179,11 @@ def main(argv=None):
         seen_fp = set()
         for v in violations:
             fp = v.get("fingerprint")
-            if fp in seen_fp:
+            if fp in seen_fp or ("run", v.get("i")) in seen_fp:
                 continue
             seen_fp.add(fp)
+            if v.get("i") is not None:
+                seen_fp.add(("run", v.get("i")))
             if "origin" in v and v["origin"].startswith("fixed-witness"):
                 reported.append(v)
                 continue
